@@ -91,6 +91,9 @@ def sigdecode_der(sig_der: bytes, use_broken_open_ssl_mechanism: bool = True) ->
     rs_strings, remainder = remove_sequence(sig_der)
     if remainder and not use_broken_open_ssl_mechanism:
         raise UnexpectedDER("trailing bytes after DER signature")
+    if not use_broken_open_ssl_mechanism:
+        if len(rs_strings) < read_length(sig_der[1:])[0]:
+            raise UnexpectedDER("ran out of sequence bytes")
     r, rest = remove_integer(
         rs_strings, use_broken_open_ssl_mechanism=use_broken_open_ssl_mechanism
     )
